@@ -20,7 +20,10 @@
 (*   left   the tree built so far ("" before nud ran), lsym its root token *)
 (*   k      what the caller does with the result: "top" parse() itself,    *)
 (*          "pre" prefix nud, "bin" infix led, "(" "f(" "[" "c(" a bracket *)
-(*          that must be closed after the inner expression                 *)
+(*          that must be closed after the inner expression, "if(" "then"   *)
+(*          "for" "let" "some" "every" a slot of a keyword expression that *)
+(*          is closed by ") then" / "else" / "return" / "satisfies",       *)
+(*          "body" its last slot                                           *)
 (*   kop    the operator token of the caller, kpos its position, kleft its *)
 (*          left operand                                                   *)
 (* Actions: Nud (Advance + nud), Led (LoopTest true: Advance + led),       *)
@@ -73,23 +76,31 @@ CONSTANTS Versions,     \* subset of AllVersions
           MaxGroups,    \* "(" / "f(" groups per sentence
           Mode,         \* "ref" | "impl"
           Source,       \* "gen" | "given"
+          BareGroups,   \* TRUE: "(a)" and "((a))" are generated too
           Emit          \* TRUE: print <<"vec", ver, toks, result>> for every sentence
 
 VARIABLES ver, toks, phase, gen, pos, stack, result
 vars == <<ver, toks, phase, gen, pos, stack, result>>
 
 ASSUME Emit => PrintT(<<"needsep", NeedSep>>)
+ASSUME Emit => PrintT(<<"layouts", [v \in AllVersions |-> Layouts(v)]>>)
+ASSUME LayoutsOK
 
 (* ---- tables -------------------------------------------------------------- *)
 ImplPrefixRBP == 70      \* nud__plus_minus_operators: self.parser.expression(rbp=70)
 ImplRootRBP   == 75      \* nud__child_path / nud__descendant_path: self.parser.expression(75)
 ImplArrowRBP  == 67      \* led__arrow_operator: right = self.parser.expression(67)
+ImplSlotRBP   == 5       \* nud__if_expression, nud__for_expression, ...: self.parser.expression(5) in every slot
 
 LBP(v, s) == IF s \notin Operators THEN 0                \* names, closing brackets, (end)
              ELSE IF Mode = "ref" THEN Level(v, s) ELSE ImplLBP[v][s]
 LedRBP(v, s) == IF Mode = "ref" THEN Level(v, s) ELSE ImplRBP[v][s]
 PreRBP(v, s) == IF Mode = "ref" THEN Level(v, s)
                 ELSE IF s \in RootOps THEN ImplRootRBP ELSE ImplPrefixRBP
+
+(* rbp of the slots of a keyword expression: the test of 'if' is an Expr, every other slot an ExprSingle *)
+SlotRBP(v, first, kw) == IF Mode = "ref" THEN (IF first /\ kw = "if(" THEN 0 ELSE Level(v, ","))
+                         ELSE ImplSlotRBP
 
 (* ---- guards --------------------------------------------------------------- *)
 PathLeftOK(v) == IF v = "1.0" THEN {"x", "/", "//", "root/", "root//", "["}
@@ -112,12 +123,12 @@ LedRejects(v, op, lsym, after) ==
 
 NudRejects(v, rbp, op, after) ==
   IF Mode = "ref" THEN rbp > Level(v, op) \/ (op \in RootOps /\ v = "1.0" /\ after # "x")
-  ELSE op \in RootOps /\ after \notin StepStart(v)
+  ELSE op \in RootOps /\ after \notin StepStart(v)       \* the keyword nud()s have no guard
 
 (* ---- generation phase ------------------------------------------------------ *)
 GenTok ==
   /\ phase = "gen" /\ Source = "gen"
-  /\ \E s \in GenExt(gen, Alphabet \cap InVersion(ver), MaxOps, MaxGroups) :
+  /\ \E s \in GenExt(gen, Alphabet \cap InVersion(ver), MaxOps, MaxGroups, BareGroups) :
         /\ gen' = s
         /\ toks' = s.t
   /\ UNCHANGED <<ver, phase, pos, stack, result>>
@@ -163,6 +174,11 @@ Nud ==
      ELSE IF tok \in GOpens THEN        \* nud of '(' / of a function: expression() up to ')'
           /\ stack' = Push(Frame(0, tok, tok, pos, ""))
           /\ pos' = pos + 1 /\ UNCHANGED <<ver, toks, phase, gen, result>>
+     ELSE IF tok \in KwOps THEN         \* nud of if / for / let / some / every: the first slot
+          IF NudRejects(ver, Top.rbp, tok, After)
+          THEN Fail("prefix-guard " \o tok \o " " \o (IF Top.kop = "" THEN "(start)" ELSE Top.kop))
+          ELSE /\ stack' = Push(Frame(SlotRBP(ver, TRUE, tok), tok, tok, pos, ""))
+               /\ pos' = pos + 1 /\ UNCHANGED <<ver, toks, phase, gen, result>>
      ELSE Fail("no-nud " \o tok)        \* an infix operator, a closing bracket or the end where an operand is due
 
 Led ==
@@ -188,6 +204,22 @@ Return ==
      ELSE IF f.k = "pre" THEN
           /\ stack' = [Pop EXCEPT ![Len(stack) - 1] = [@ EXCEPT !.left = Node1(f.kop, f.left), !.lsym = f.kop]]
           /\ UNCHANGED <<ver, toks, phase, gen, result, pos>>
+     ELSE IF f.k = "body" THEN          \* the last slot of a keyword expression: not bracketed
+          /\ stack' = [Pop EXCEPT ![Len(stack) - 1] =
+                [@ EXCEPT !.lsym = f.kop,
+                          !.left = IF IsErr(f.left) THEN f.left ELSE "(" \o KwSym(f.kop) \o " " \o f.kleft \o " " \o f.left \o ")"]]
+          /\ UNCHANGED <<ver, toks, phase, gen, result, pos>>
+     ELSE IF f.k \in KwOps \cup {"then"} THEN     \* self.parser.advance(')') advance('then') / ('else') / ('return') ...
+          IF NextTok # CloseOf(f.k) \/ (f.k = "if(" /\ After # "then")
+          THEN Fail("bracket-not-closed " \o f.k)
+          ELSE LET var  == "(V" \o Ord(toks, f.kpos, KwOps \ {"if("}) \o ")"
+                   sofar == IF f.k = "if(" THEN f.left
+                            ELSE IF f.k = "then" THEN f.kleft \o " " \o f.left
+                            ELSE var \o " " \o f.left
+               IN /\ pos' = pos + (IF f.k = "if(" THEN 2 ELSE 1)
+                  /\ stack' = Append(Pop, [Frame(SlotRBP(ver, FALSE, f.kop), IF f.k = "if(" THEN "then" ELSE "body",
+                                                 f.kop, f.kpos, sofar) EXCEPT !.left = ""])
+                  /\ UNCHANGED <<ver, toks, phase, gen, result>>
      ELSE IF f.k = "bin" THEN
           /\ stack' = [Pop EXCEPT ![Len(stack) - 1] = [@ EXCEPT !.left = Node2(f.kop, f.kleft, f.left), !.lsym = f.kop]]
           /\ UNCHANGED <<ver, toks, phase, gen, result, pos>>
@@ -215,7 +247,7 @@ Spec == Init /\ [][Next]_vars
 TypeOK == /\ ver \in AllVersions
           /\ phase \in {"gen", "parse", "done"}
           /\ phase = "parse" => Len(stack) >= 1 /\ pos \in 1..(Len(toks) + 1)
-          /\ \A i \in 1..Len(stack) : stack[i].k \in {"top", "pre", "bin"} \cup Opens
+          /\ \A i \in 1..Len(stack) : stack[i].k \in {"top", "pre", "bin", "body"} \cup Opens
 
 Same(a, b) == IF IsErr(a) \/ IsErr(b) THEN IsErr(a) /\ IsErr(b) ELSE a = b
 
@@ -235,5 +267,5 @@ GrammarLaws == phase = "done" => ParenNeutral(ver, toks) /\ LeavesComplete(ver, 
 (* the stack discipline of expression(): parse() calls it with rbp 0, brackets reset it to 0 *)
 StackShape == phase = "parse" =>
   /\ stack[1].k = "top" /\ stack[1].rbp = 0
-  /\ \A i \in 2..Len(stack) : stack[i].k \in Opens => stack[i].rbp = 0
+  /\ \A i \in 2..Len(stack) : stack[i].k \in POpens \cup GOpens => stack[i].rbp = 0
 =============================================================================
